@@ -94,7 +94,7 @@ def generate(prop, rng):
         cfg.update(l0=l0, l1=l1, with_state=rng.random() < 0.7, single_file=rng.random() < 0.15)
         sc.update(prior=prior, target=target, edits=edits, kind="c10")
         return sc
-    kind = gen.weighted(rng, [(6, "checkout"), (4, "links")])
+    kind = gen.weighted(rng, [(5, "checkout"), (5, "links")])
     sc["kind"] = kind
     ops = []
     if kind == "checkout":
@@ -124,7 +124,8 @@ def generate(prop, rng):
                 ops.append({"op": o, "slot": slot})
             elif o == "user_write":
                 ops.append({"op": o, "slot": slot, "rel": rng.choice(names), "tag": rng.randrange(1000),
-                            "how": rng.choice(["inplace", "replace", "new"])})
+                            "how": rng.choice(["inplace", "replace", "new"]),
+                            "existing": rng.random() < 0.6, "pick": rng.random()})
             elif o == "user_delete":
                 ops.append({"op": o, "slot": slot, "rel": rng.choice(names + [""])})
             elif o == "checkout_rec":
@@ -360,14 +361,12 @@ def _exec_c05_links(sc, ctx, env):
             else:
                 for rel, ci in t.items():
                     env.user_write(os.path.join(p, rel), env.contents[ci])
-            if op["slot"] in recorded:
-                recorded[op["slot"]] = False
         elif o == "save_link":
             p = slot_path(op["slot"])
             if os.path.lexists(p):
                 ctx.clock.advance(10**9)
                 st.save_link(p, env.w.localfs)
-                recorded[op["slot"]] = True
+                recorded[op["slot"]] = model.files_of(model.snapshot(p))
         elif o == "checkout_rec":
             p = slot_path(op["slot"])
             ctx.clock.advance(10**9)
@@ -375,7 +374,7 @@ def _exec_c05_links(sc, ctx, env):
                 env.odb.cache_types = [op.get("link", "copy")]
                 tobj = env.file_obj(sorted(sc["trees"][op["tree"]].values())[0]) if op.get("as_file") else env.tree_obj(op["tree"])
                 checkout(p, env.w.localfs, tobj, env.odb, force=True, state=st)
-                recorded[op["slot"]] = True
+                recorded[op["slot"]] = model.files_of(model.snapshot(p))
             except Exception:  # noqa: BLE001
                 # a failed checkout may or may not have touched the path and may
                 # or may not have (re-)recorded it: the model does not know
@@ -386,6 +385,11 @@ def _exec_c05_links(sc, ctx, env):
                 continue
             if os.path.isdir(p) and not os.path.islink(p):
                 target = os.path.join(p, op["rel"])
+                if op.get("existing"):
+                    # edit a file that IS there (chosen by position), not a new name
+                    have = sorted(r for r, v in (model.snapshot(p) or {}).items() if v[0] == "file")
+                    if have:
+                        target = os.path.join(p, have[int(op["pick"] * len(have)) % len(have)])
             else:
                 target = p
             data = b"edit-%d" % op["tag"]
@@ -399,19 +403,13 @@ def _exec_c05_links(sc, ctx, env):
                 if os.path.isdir(target) and not os.path.islink(target):
                     continue
                 env.user_write(target, data)
-            if op["slot"] in recorded:
-                if recorded[op["slot"]]:
-                    modified_since = True
-                recorded[op["slot"]] = False
-        elif o == "user_delete" and False:
-            pass
+            if recorded.get(op["slot"]):
+                modified_since = True
         elif o == "user_delete":
             p = slot_path(op["slot"])
             target = os.path.join(p, op["rel"]) if op["rel"] else p
             if os.path.lexists(target):
                 env.user_delete(target)
-                if op["slot"] in recorded:
-                    recorded[op["slot"]] = False
         else:  # cleanup
             before = model.snapshot(env.wsroot) or {}
             used = [slot_path(s) for s in op["used"]]
@@ -433,8 +431,13 @@ def _exec_c05_links(sc, ctx, env):
                     why = "in-use"
                 elif recorded[slot] is None:
                     continue
-                elif not recorded[slot]:
-                    why = "modified-since-recorded"
+                else:
+                    # "modified since recorded": the files under the link differ (paths or bytes)
+                    # from what was there when it was recorded
+                    now = {rr[len(slot) + 1 :] if rr != slot else "": v[1] for rr, v in before.items()
+                           if (rr == slot or rr.startswith(slot + "/")) and v[0] in ("file", "symlink")}
+                    if now != recorded[slot]:
+                        why = "modified-since-recorded"
                 if why:
                     ctx.violate("cleanup-removed-wrong-path", why, f"op{n}: {r} removed; used={op['used']} recorded={recorded}")
             for slot in list(recorded):
